@@ -27,7 +27,7 @@ func runC08(cfg *runCfg) error {
 		{"random", rsRandomFamily(cfg.seed, n, [5]int{0, 2, 1, 5, 3}, false, false)},
 	}
 	rule := "the F4/F5 histories; subscribe/unsubscribe workloads (repeated filters, changed QoS, multi-filter calls with duplicates, absent unsubscribes) x every placement of closing faults, session lost / kept / AlwaysResubscribe; random subscribe-heavy scenarios of 1-4 connections interleaved with publishes; judged: broker table at the end equals the net effect of the calls, re-subscriptions only name filters the application subscribed and never occur on the first connection; non-trivial = distinct scenario with a subscribe call and a reconnect"
-	return rsRunProperty(cfg, "C08", "c08_ok", fams, rule, func(sc *rsScenario, o *rsObs) bool {
+	return rsRunProperty(cfg, "C08", "c08_ok'", fams, rule, func(sc *rsScenario, o *rsObs) bool {
 		return len(sc.Phases) > 1 && len(o.Subs)+len(o.SubEst) > 0
 	})
 }
